@@ -435,9 +435,10 @@ func init() {
 			ctl := sampleCtl(r)
 			// (a static world: the constraints whose recorded trigger needs an update of an existing object are lifted)
 			lift := []string{"no_dup_paths", "no_new_default_backend", "ingress_hosts_fixed"}
+			ctl.TCPConfigMap = r.IntN(4) == 0
 			rc := &RunConfig{Property: "C06", Profile: "order", Seed: seed, Ctl: ctl, MapOrder: true, Lagfree: true, IgnoreAvoid: lift}
 			// dense worlds: few hosts and paths, many ingresses, so that declarations collide
-			rc.World, rc.Ops = GenerateRun(seed, GenOptions{Sparse: r.IntN(4) == 0, NoOps: true, MaxIngresses: pickInt(r, 5, 7, 9), KeysPerRun: pickInt(r, 4, 7, 10),
+			rc.World, rc.Ops = GenerateRun(seed, GenOptions{Sparse: r.IntN(4) == 0, NoOps: true, MaxIngresses: pickInt(r, 5, 7, 9), KeysPerRun: pickInt(r, 4, 7, 10), TCPConfigMap: ctl.TCPConfigMap,
 				AnnChance: 2, ExcludeIngressKeys: []string{"waf", "cert-signer"}, NoForeignClass: r.IntN(2) == 0, IgnoreAvoid: lift})
 			return rc
 		}})
